@@ -2,6 +2,7 @@
 from contracts import nsf as N
 from contracts import core as K
 
+from contracts import wrappers as W
 ID = "C03"
 LEVEL = "proof"
 TRUSTED = [
@@ -18,8 +19,8 @@ EXPLANATION = ("Deductive: _calculate_scattering, Neutron.scattering_by_waveleng
 
 
 def units(tier):
-    return [N.U_CALC, N.U_SBW_PLAIN, N.U_SBW_TABLE, N.L_SUM_POSITIVE, N.U_NS_WAVELENGTH, N.U_NS_ENERGY, N.U_NS_DEFAULT,
-            N.U_NSCAT, N.U_NSLD, N.L_ELEMENT_VS_COMPOUND, K.L_REGISTRATION]
+    return ([N.U_CALC, N.U_SBW_PLAIN, N.U_SBW_TABLE, N.L_SUM_POSITIVE, N.U_NS_WAVELENGTH, N.U_NS_ENERGY, N.U_NS_DEFAULT,
+            N.U_NSCAT, N.U_NSLD, N.L_ELEMENT_VS_COMPOUND, K.L_REGISTRATION]) + [W.U_NSF_NEUTRON_SLD, W.U_PKG[3], W.U_PKG[4], W.U_FROM_ATOMS[0]]
 
 
 def runner_tasks(tier):
